@@ -77,8 +77,14 @@ func collectFacts(parents map[ast.Node]ast.Node, at ast.Node) []condFact {
 				if s == child || s.Pos() >= child.Pos() {
 					break
 				}
-				if ifs, ok := s.(*ast.IfStmt); ok && ifs.Else == nil && endsInReturn(ifs.Body.List) {
+				if ifs, ok := s.(*ast.IfStmt); ok && ifs.Else == nil && endsInJump(ifs.Body.List) {
 					add(ifs.Cond, true)
+				}
+				// for { ...; if C { break }; ... } with that single exit: C holds after the loop
+				if fs, ok := s.(*ast.ForStmt); ok && fs.Cond == nil {
+					if c := soleBreakCond(fs); c != nil {
+						add(c, false)
+					}
 				}
 			}
 		case *ast.FuncLit, *ast.FuncDecl:
@@ -1419,4 +1425,64 @@ func ruleL5(r *Run) {
 			}
 		}
 	}
+}
+
+// endsInJump: the statement list ends by leaving the enclosing block (return, continue, break, goto, panic).
+func endsInJump(body []ast.Stmt) bool {
+	if len(body) == 0 {
+		return false
+	}
+	switch x := body[len(body)-1].(type) {
+	case *ast.ReturnStmt:
+		return true
+	case *ast.BranchStmt:
+		return x.Tok != token.FALLTHROUGH
+	case *ast.ExprStmt:
+		if c, ok := x.X.(*ast.CallExpr); ok {
+			if id, ok := c.Fun.(*ast.Ident); ok && id.Name == "panic" {
+				return true
+			}
+		}
+	}
+	return false
+}
+
+// soleBreakCond: the condition C of the only `if C { break }` that leaves the condition-less loop fs
+// (returns inside the loop are fine; any other break, labelled jump or goto gives nil).
+func soleBreakCond(fs *ast.ForStmt) ast.Expr {
+	var cond ast.Expr
+	n, bad := 0, false
+	var walk func(node ast.Node, inner bool)
+	walk = func(node ast.Node, inner bool) {
+		ast.Inspect(node, func(m ast.Node) bool {
+			if m == node {
+				return true
+			}
+			switch x := m.(type) {
+			case *ast.FuncLit:
+				return false
+			case *ast.ForStmt, *ast.RangeStmt, *ast.SwitchStmt, *ast.TypeSwitchStmt, *ast.SelectStmt:
+				walk(x, true)
+				return false
+			case *ast.BranchStmt:
+				if x.Label != nil || x.Tok == token.GOTO {
+					bad = true
+				} else if x.Tok == token.BREAK && !inner {
+					n++
+				}
+			case *ast.IfStmt:
+				if !inner && x.Else == nil && len(x.Body.List) == 1 {
+					if b, ok := x.Body.List[0].(*ast.BranchStmt); ok && b.Tok == token.BREAK && b.Label == nil {
+						cond = x.Cond
+					}
+				}
+			}
+			return true
+		})
+	}
+	walk(fs.Body, false)
+	if bad || n != 1 {
+		return nil
+	}
+	return cond
 }
